@@ -1,6 +1,8 @@
 import Ecal.Model.Prims
+import Ecal.Lemmas.C06Guards
 import Ecal.Model.Eval
 import Ecal.Lemmas.C06NoPanic
+import Ecal.Lemmas.C06FragB
 /-!
 C06 — no ECAL program, sink attribute or event can crash the host process.
 
@@ -28,94 +30,18 @@ theorem goSlice_ok {α : Type} (xs : List α) (lo hi : Int) (h : 0 ≤ lo ∧ lo
     ∃ v, goSlice xs lo hi = .ok v := by
   unfold goSlice; simp [h]
 
-theorem eqSite_no_panic (a b : PVal) : isPanic (eqSite a b) = false := by
-  unfold eqSite goIfaceEq
-  split <;> simp_all [isPanic]
-
-theorem listGetSite_no_panic (xs : List PVal) (idx : Int) : isPanic (listGetSite xs idx) = false := by
-  unfold listGetSite
-  simp only
-  split
-  · next h => obtain ⟨v, hv⟩ := goIndex_ok xs _ h; simp [hv, isPanic]
-  · simp [isPanic]
-
-/-- Each guarded call site of a panicking primitive never yields `panic`, for all operands: modulo
-    (zero divisor), `==`/`!=`/`in` (uncomparable operands), map literal entries (shape, unhashable key),
-    the three list accesses of varsscope.go (any index, any length), container kind tests, operand
-    kind tests, `raise` (any argument count), sink attribute values of any kind, statematch / event
-    state values of any kind (unhashable included), the rule-index level assertion. -/
-theorem prims_guarded :
-    (∀ a b, isPanic (modSite a b) = false) ∧
-    (∀ a b, isPanic (eqSite a b) = false) ∧
-    (∀ a b, isPanic (inSite a b) = false) ∧
-    (∀ name entry m, isPanic (mapLitSite name entry m) = false) ∧
-    (∀ xs idx, isPanic (listGetSite xs idx) = false) ∧
-    (∀ xs idx v, isPanic (listSetSite xs idx v) = false) ∧
-    (∀ xs idx, isPanic (listWalkSite xs idx) = false) ∧
-    (∀ c idx, isPanic (containerSite c idx) = false) ∧
-    (∀ a b, isPanic (numOpSite a b) = false) ∧
+/-- The transcribed sites OUTSIDE the evaluator model never yield `panic`: `raise` (any argument count),
+    a sink attribute value of any kind (comma-ok check, then the unchecked assertion of the same type),
+    a statematch / event-state value of any kind (hashable ⇒ Go map key, otherwise the deep-compared side
+    list).  In the last two the guard and the primitive's panic condition are the same predicate BY
+    TRANSCRIPTION: what can be wrong is the transcription (which node kind is checked against which Go
+    type), and that is tied to /repo only by the test families A (5 attributes × value kinds) and E
+    (statematch × state, real worker), not by a theorem. -/
+theorem engine_sites_guarded :
     (∀ args, isPanic (raiseSite args) = false) ∧
     (∀ k v, isPanic (sinkAttrSite k v) = false) ∧
-    (∀ t v, isPanic (stateKeySite t v) = false) ∧
-    isPanic stateLeafSite = false := by
-  refine ⟨?_, eqSite_no_panic, ?_, ?_, listGetSite_no_panic, ?_, ?_, ?_, ?_, ?_, ?_, ?_, ?_⟩
-  · intro a b; unfold modSite goIntMod; split <;> simp_all [isPanic]
-  · intro a b; unfold inSite
-    split
-    · next xs _ =>
-      suffices h : ∀ (l : List PVal) (acc : Bool), isPanic (l.foldlM (fun found x => do if found then pure true else eqSite a x) acc) = false from h _ _
-      intro l
-      induction l with
-      | nil => intro acc; simp [isPanic, pure, Except.pure]
-      | cons x l ih =>
-        intro acc
-        simp only [List.foldlM_cons, bind, Except.bind]
-        cases acc with
-        | true => simpa [pure, Except.pure] using ih true
-        | false =>
-          have hx := eqSite_no_panic a x
-          cases hq : eqSite a x with
-          | ok v => simpa [hq] using ih v
-          | error e => cases e <;> simp_all [isPanic]
-    · simp [isPanic]
-  · intro name entry m; unfold mapLitSite
-    split
-    · simp [isPanic]
-    · next h =>
-      have hl : entry.length = 2 := by
-        by_cases h2 : entry.length = 2
-        · exact h2
-        · exact absurd (Or.inr h2) h
-      obtain ⟨k, hk⟩ := goIndex_ok entry 0 (by omega)
-      obtain ⟨v, hv⟩ := goIndex_ok entry 1 (by omega)
-      simp only [hk, hv, bind, Except.bind]
-      split
-      · simp [isPanic]
-      · next hh =>
-        unfold goMapStore
-        have : k.hashable = true := by
-          by_cases hn : k.kind = Kind.null
-          · simp [PVal.hashable, hn]
-          · simp_all
-        simp [this, isPanic]
-  · intro xs idx v; unfold listSetSite
-    simp only
-    split
-    · next h => obtain ⟨w, hw⟩ := goIndex_ok xs _ h; simp [hw, isPanic, bind, Except.bind, pure, Except.pure]
-    · simp [isPanic]
-  · intro xs idx; unfold listWalkSite
-    simp only
-    split
-    · next h => obtain ⟨w, hw⟩ := goIndex_ok xs _ h; simp [hw, isPanic]
-    · simp [isPanic]
-  · intro c idx; unfold containerSite
-    split
-    · simp [isPanic]
-    · split
-      · exact listGetSite_no_panic _ _
-      · simp [isPanic]
-    · simp [isPanic]
-  · intro a b; unfold numOpSite; split <;> simp [isPanic]
+    (∀ t v, isPanic (stateKeySite t v) = false) := by
+  refine ⟨?_, ?_, ?_⟩
   · intro args; unfold raiseSite
     by_cases h0 : args.length > 0
     · obtain ⟨a0, e0⟩ := goIndex_ok args 0 (by omega)
@@ -138,12 +64,11 @@ theorem prims_guarded :
     · split
       · next h => simp [h, isPanic, bind, Except.bind, pure, Except.pure]
       · simp [isPanic]
-  · simp [stateLeafSite, assertTrue, isPanic]
 
 /-! ### builtins -/
 
 theorem assertNumParam_cases (v : PVal) (hv : v.NumOK) :
-    (∃ i i1, assertNumParam v = .ok (i, i1) ∧ (0 ≤ i → i1 = i + 1)) ∨ (∃ m, assertNumParam v = .error (.err m)) := by
+    (∃ i i1, assertNumParam v = .ok (i, i1) ∧ (0 ≤ i → i ≤ i1 ∧ i1 ≤ i + 1)) ∨ (∃ m, assertNumParam v = .error (.err m)) := by
   cases v with
   | str s o =>
     cases o with
@@ -234,7 +159,7 @@ theorem addFunc_total (args : List PVal) (hn : ∀ a ∈ args, a.NumOK) : isPani
           · simp [isPanic]
           · next hg =>
             simp at hg
-            have hi1 : i1 = i + 1 := hsucc hg.1
+            have hi1 := hsucc hg.1
             have hlen : (xs ++ [PVal.num 0 1]).length = xs.length + 1 := by simp
             obtain ⟨s1, hs1⟩ := goSlice_ok (xs ++ [PVal.num 0 1]) i1 (xs ++ [PVal.num 0 1]).length (by rw [hlen]; omega)
             obtain ⟨s2, hs2⟩ := goSlice_ok (xs ++ [PVal.num 0 1]) i (xs ++ [PVal.num 0 1]).length (by rw [hlen]; omega)
@@ -301,69 +226,15 @@ theorem rangeFunc_total (args : List PVal) (hn : ∀ a ∈ args, a.NumOK) : isPa
         exact key c (mem _ _ hc) _ (by simp [isPanic])
       · simp [isPanic]
 
-theorem addSuperClasses_total : ∀ (d : Nat) (t : List (PVal × PVal)), isPanic (addSuperClasses d t) = false := by
-  intro d
-  induction d with
-  | zero => intro t; simp [addSuperClasses, isPanic]
-  | succ d ih =>
-    intro t
-    unfold addSuperClasses
-    split
-    · simp [isPanic]
-    · split
-      · next xs _ =>
-        suffices h : ∀ l : List PVal, isPanic (l.forM fun x => match goAssertOk .map x with
-            | some (.map t) => addSuperClasses d t
-            | _ => (.ok () : R Unit)) = false from h _
-        intro l
-        induction l with
-        | nil => simp [List.forM_nil, isPanic, pure, Except.pure]
-        | cons x l ihl =>
-          have e : ∀ (g : PVal → R Unit), (x :: l).forM g = (g x >>= fun _ => l.forM g) := fun _ => rfl
-          rw [e]
-          apply bind_no_panic
-          · split
-            · exact ih _
-            · simp [isPanic]
-          · intro _ _; exact ihl
-      · simp [isPanic]
-
-theorem newFunc_total (initRun : List PVal → R Unit) (hinit : ∀ a, isPanic (initRun a) = false)
-    (args : List PVal) : isPanic (newFunc initRun args) = false := by
-  unfold newFunc
-  split
-  · next h =>
-    obtain ⟨a0, e0⟩ := goIndex_ok args 0 (by omega)
-    rw [e0]
-    apply bind_no_panic
-    · simp [isPanic]
-    · intro a ha; cases ha
-      apply bind_no_panic
-      · unfold assertMapParam; split <;> simp [isPanic]
-      · intro tmpl _
-        have hs := addSuperClasses_total 64 tmpl
-        have tail : isPanic (do addSuperClasses 64 tmpl; (.ok (.map tmpl) : R PVal)) = false :=
-          bind_no_panic _ _ hs (fun _ _ => by simp [isPanic])
-        simp only
-        split
-        · split
-          · obtain ⟨rest, hr⟩ := goSlice_ok args 1 args.length (by omega)
-            rw [hr]
-            apply bind_no_panic
-            · simp [isPanic]
-            · intro r hr'; cases hr'
-              exact bind_no_panic _ _ (hinit _) (fun _ _ => by simp [isPanic])
-          · exact tail
-        · exact tail
-  · simp [isPanic]
-
-/-- Every modelled builtin (`len add del concat range raise type new`) applied to ANY argument vector
-    (any length, any kinds) returns a value or an error, never a Go panic. Hypotheses: number arguments
-    satisfy `int(x+1) = int(x)+1` whenever `int(x) ≥ 0` (true for every float64 below 2^53; `NumOK`),
-    and running the user's `init` function does not panic (that is `eval_never_panics`). -/
-theorem builtin_total (initRun : List PVal → R Unit) (hinit : ∀ a, isPanic (initRun a) = false)
-    (name : String) (args : List PVal) (hn : ∀ a ∈ args, a.NumOK) (r : R PVal)
-    (h : builtin initRun name args = some r) : isPanic r = false := by
+/-- Every builtin transcribed in `Prims` (`len add del concat range raise type`) applied to ANY argument
+    vector (any length, any kinds) returns a value or an error, never a Go panic. Hypothesis `NumOK`:
+    `0 ≤ int(x) → int(x) ≤ int(x+1) ≤ int(x)+1` for number arguments (true for every float64, NaN and ±Inf
+    included, on every platform). This is a statement about the TRANSCRIPTION; it is compared with Go only
+    where the driver falls back to it (≈13 % of the builtin cases); the builtins the correspondence compares
+    everywhere are `Ecal.Ev`'s `lenB addB delB concatB newB` (see `eval_never_panics_partial`: calls are the
+    remaining gap). `new` is not transcribed here any more (the model is `Ecal.Ev.newB`). -/
+theorem builtin_total (name : String) (args : List PVal) (hn : ∀ a ∈ args, a.NumOK) (r : R PVal)
+    (h : builtin name args = some r) : isPanic r = false := by
   unfold builtin at h
   split at h
   all_goals cases h
@@ -372,32 +243,81 @@ theorem builtin_total (initRun : List PVal → R Unit) (hinit : ∀ a, isPanic (
   · exact delFunc_total _ hn
   · exact concatFunc_total _
   · exact rangeFunc_total _ hn
-  · exact prims_guarded.2.2.2.2.2.2.2.2.2.1 _
+  · exact engine_sites_guarded.1 _
   · exact typeFunc_total _
-  · exact newFunc_total _ hinit _
 
-/-- non-vacuity: the hypotheses hold for concrete vectors, and the builtins do distinguish errors from values -/
-example : builtin (fun _ => .ok ()) "add" [.list [.null], .num 2 3, .num 7 8] = some (.error (.err "Out of bounds access to list")) := by rfl
-example : builtin (fun _ => .ok ()) "add" [.list [.null], .num 2 3, .num 1 2] = some (.ok (.list [.null, .num 2 3])) := by rfl
-example : builtin (fun _ => .ok ()) "del" [.list [.null], .num 5 6] = some (.error (.err "Out of bounds access to list")) := by rfl
+/-- non-vacuity: the hypotheses hold for concrete vectors (also a negative fraction: int(-0.5) = int(0.5) = 0),
+    and the builtins do distinguish errors from values -/
+example : builtin "add" [.list [.null], .num 2 3, .num 7 8] = some (.error (.err "Out of bounds access to list")) := by rfl
+example : builtin "add" [.list [.null], .num 2 3, .num 1 2] = some (.ok (.list [.null, .num 2 3])) := by rfl
+example : (PVal.num 0 0).NumOK := fun _ => ⟨by omega, by omega⟩
+example : builtin "del" [.list [.null], .num 5 6] = some (.error (.err "Out of bounds access to list")) := by rfl
 
 /-! ### negative witnesses: the unguarded copies (code before the repair) do panic -/
 
-/-- `5 % 0` before ee44ab4 -/
-theorem witness_mod_unguarded : isPanic (modSiteUnguarded 5 0) = true := by decide
-/-- `[1] == [1]` before ee44ab4 -/
-theorem witness_eq_unguarded : isPanic (eqSiteUnguarded (.list [.num 1 2]) (.list [.num 1 2])) = true := by decide
-/-- `a := [1]; a[-5]` before ee44ab4 -/
-theorem witness_index_unguarded : isPanic (listGetSiteUnguarded [.num 1 2] (-5)) = true := by decide
-/-- `x := {1}` before ee44ab4 -/
-theorem witness_maplit_unguarded : isPanic (mapLitSiteUnguarded [.num 1 2] []) = true := by decide
-/-- `del([1], 5)` / `add([1], 2, 7)` before ee44ab4 -/
+/-- `del([1], 5)` / `add([1], 2, 7)` before ee44ab4, in the transcription (the evaluator-side witnesses: `guards_necessary`) -/
 theorem witness_del_unguarded : isPanic (delFuncG false [.list [.num 1 2], .num 5 6]) = true := by decide
 theorem witness_add_unguarded : isPanic (addFuncG false [.list [.num 1 2], .num 2 3, .num 7 8]) = true := by decide
 /-- statematch `{"a": [1]}` before 1d04360 -/
 theorem witness_statematch_unguarded : isPanic (stateKeySiteUnguarded [] (.list [.num 1 2])) = true := by decide
 /-- a sink priority that is not a number, without the kind check of sinkDetailRuntime -/
 theorem witness_sinkattr_unguarded : isPanic (sinkAttrSiteUnguarded .num (.str "x" none)) = true := by decide
+
+/-! ### the guards of the interpreter: sufficient, used by the model, necessary -/
+open Ecal.GoPrim Ecal.Lemmas.C06Guards in
+/-- SUFFICIENCY. Every guarded value-level site of the interpreter (`Ecal.GoPrim.Site`: the Go code shape
+    "guard, then the panicking primitive") never yields `panic`, for all operands: list read / nested read
+    and list write with any index text (the three varsscope.go sites), delete and insert with any index
+    (backing array at least as long as the slice), map-literal store with any key, `%` with any divisor,
+    `==` / `!=` / `in` on any two values, the operand assertions of the arithmetic operators. -/
+theorem guards_sufficient :
+    (∀ xs fld, noPanic (Site.listRead xs fld)) ∧
+    (∀ xs fld v, noPanic (Site.listWrite xs fld v)) ∧
+    (∀ (b : List Ecal.Ev.Val) (l : Nat) (i : Int), l ≤ b.length → noPanic (Site.del b l i)) ∧
+    (∀ cur v i, noPanic (Site.insert cur v i)) ∧
+    (∀ kvs k v err, err ≠ Ecal.Ev.Sig.panic → noPanic (Site.mapLit kvs k v err)) ∧
+    (∀ a b err, err ≠ Ecal.Ev.Sig.panic → noPanic (Site.modint a b err)) ∧
+    (∀ a b deep, noPanic (Site.valuesEqual a b deep)) ∧
+    (∀ a b eA eB, eA ≠ Ecal.Ev.Sig.panic → eB ≠ Ecal.Ev.Sig.panic → noPanic (Site.numOperands a b eA eB)) :=
+  ⟨listRead_noPanic, listWrite_noPanic, del_noPanic, insert_noPanic, mapLit_noPanic, modint_noPanic,
+   valuesEqual_noPanic, numOperands_noPanic⟩
+
+open Ecal.GoPrim Ecal.Lemmas.C06Guards Ecal.Ev in
+/-- REFINEMENT. The evaluator model `Ecal.Ev` — the model that is compared with Go on every run — computes
+    exactly these sites where the Go code has them: its list read (`listIndex`, then the backing array) is
+    `Site.listRead` on the slice's elements; its map-literal step, its `%`, its operand match and the
+    comparable branch of its equality are the sites; `delAt` writes the backing array `Site.del` computes
+    (`del_eq`). So a difference between a guard of /repo and the guard in the site shows up in the
+    correspondence run, and `guards_sufficient` is a statement about the compared model. -/
+theorem model_is_guard_then_primitive :
+    (∀ (fld : List Nat) (b : List Val) (l : Nat) (s : St), l ≤ b.length →
+      ((do let i ← listIndex fld l; pure (b.getD i Val.null) : M Val).run.run s) = (Site.listRead (b.take l) fld, s)) ∧
+    (∀ kvs k v err, Site.mapLit kvs k v err = if !(hashable k) then .error err else .ok (Ecal.Ev.mapStore kvs k v)) ∧
+    (∀ a b err, Site.modint a b err = if b = 0 then .error err else .ok (a.tmod b)) ∧
+    (∀ a b eA eB, Site.numOperands a b eA eB =
+      (match a, b with | .num x, .num y => .ok (x, y) | .num _, _ => .error eB | _, _ => .error eA)) ∧
+    (∀ a b deep, (sameDyn a b && uncomparable a) = false → Site.valuesEqual a b deep = .ok (keyEq a b)) ∧
+    (∀ (b : List Val) (l : Nat) (i : Int), l ≤ b.length → Site.del b l i = if i < 0 ∨ i ≥ l then .error (plain "Out of bounds access to list")
+      else .ok (b.take i.toNat ++ (b.take l).drop (i.toNat + 1) ++ b.drop (l - 1))) :=
+  ⟨fun fld b l s h => listRead_refines fld b l h s, mapLit_refines, modint_refines, numOperands_refines,
+   valuesEqual_refines, fun b l i h => del_eq b l i h⟩
+
+open Ecal.GoPrim Ecal.Lemmas.C06Guards in
+/-- NECESSITY (negative witnesses). The same sites WITHOUT their guard — the code before ee44ab4 — panic on
+    the inputs of the repaired defects: `a[-5]` read and write on a one-element list, `del([1], 5)`,
+    `add([1], 2, 7)`, `{[1]:2}`, `5 % 0`, `[1] == [1]`, an unchecked operand assertion. A proof of
+    `guards_sufficient` that did not use the guards would prove these too — it cannot. -/
+theorem guards_necessary :
+    Site.listReadUnguarded [Ecal.Ev.Val.null] [45, 53] = .error Ecal.Ev.Sig.panic ∧
+    Site.listWriteUnguarded [Ecal.Ev.Val.null] [45, 53] Ecal.Ev.Val.null = .error Ecal.Ev.Sig.panic ∧
+    Site.delUnguarded [Ecal.Ev.Val.null] 1 5 = .error Ecal.Ev.Sig.panic ∧
+    Site.insertUnguarded [Ecal.Ev.Val.null, Ecal.Ev.Val.null] Ecal.Ev.Val.null 7 = .error Ecal.Ev.Sig.panic ∧
+    Site.mapLitUnguarded [] (Ecal.Ev.Val.list 1 1) Ecal.Ev.Val.null = .error Ecal.Ev.Sig.panic ∧
+    Site.modintUnguarded 5 0 = .error Ecal.Ev.Sig.panic ∧
+    Site.valuesEqualUnguarded (Ecal.Ev.Val.list 1 1) (Ecal.Ev.Val.list 2 1) = .error Ecal.Ev.Sig.panic ∧
+    Site.numOperandsUnguarded (Ecal.Ev.Val.num 1) (Ecal.Ev.Val.str []) = .error Ecal.Ev.Sig.panic :=
+  ⟨witness_listRead, witness_listWrite, witness_del, witness_insert, witness_mapLit, witness_modint,
+   witness_valuesEqual, witness_numOperands⟩
 
 /-! ### the evaluator -/
 open Ecal.Ev Ecal.Lemmas.C06
@@ -419,43 +339,49 @@ theorem error_in_try_catchable (body : M Val) (handlers : List Handler) (oth : O
 example : ∃ s', (tryCore (throw (Sig.err ⟨"Operand is not a number", 1, 1⟩ none))
       [fun _ => pure (some (Val.num 7))] none).run.run {} = (.ok (Val.num 7), s') := ⟨_, rfl⟩
 
-/-- The evaluator model never yields `panic` — PARTIAL (one gap left: calls).
+/-- The evaluator model never yields `panic` on the fragment `Frag` (all constructs of the model, calls included).
 
-    Full statement (kept visible): for every tree `n` the parser can return (C07's `WellFormed`), every
-    scope `sc`, every state `s` with `Inv s` and every fuel `f`: `(eval f sc n).run.run s` does not end in
-    `Sig.panic`. About the CODE it additionally needs the hypothesis "no container that (transitively)
-    contains itself reaches fmt.Sprint / log / `%#v`" (known finding `cyclic-container-stringify`: the Go
-    printer overflows the stack; the model's printer is fuel-bounded and cannot panic) — SPEC["assumptions"].
-
-    Proved here: exactly that — plus preservation of `Inv` — for every tree in `Frag`
-    (`Ecal/Lemmas/C06NoPanic.lean`), ANY scope, ANY heap (operands of any kind, dangling references, cyclic
-    containers), any fuel. `Inv s`: every declaration in the function table is a `Frag` function node, every
-    tree of the interpolation table is in `Frag` (`inv_empty`: it holds initially). `Frag` contains, nested to
-    any depth (shape conditions: token present, child counts, children in `Frag` — what the parser produces):
+    Statement: for every tree `n` in `Frag`, every scope `sc`, every state `s` with `Inv s` and every fuel `f`:
+    `(eval f sc n).run.run s` does not end in `Sig.panic`, and `Inv` holds afterwards. ANY heap: operands of any
+    kind, dangling references, cyclic containers. `Inv s`: every declaration in the function table is a `Frag`
+    function node, every tree of the interpolation table is in `Frag` (`inv_empty`: holds initially).
+    What kind of theorem this is: in `Ecal.Ev` a `panic` can only come from the SHAPE of the tree (nil child,
+    missing token, arity) — the value-level panics of Go are transcribed there as guarded errors; that these
+    guards are the right ones is `guards_sufficient` + `model_is_guard_then_primitive` + `guards_necessary`
+    above, and that the transcription matches /repo is the correspondence run. About the CODE the statement
+    additionally needs: no container that (transitively) contains itself reaches fmt.Sprint / log / `%#v`
+    (known finding `cyclic-container-stringify`; the model's printer is fuel-bounded), and no container is
+    used by two ECAL threads outside `mutex` (known finding `unsynchronised-shared-container`; the model is
+    sequential).
+    `Frag` contains, nested to any depth (shape conditions: token present, child counts, children in `Frag`):
     * literals `number true false null`, raw and interpolating strings, list literals, map literals (an entry
       that is not a key-value pair and an unhashable key are ERRORS — the repaired sites — not panics);
     * unary `plus minus not`, `guard`; binary `plus minus times div divint modint and or == != >= > <= <
       in notin hasprefix hassuffix`; `like` and the other nodes the model does not evaluate: `unsupported`;
-    * identifiers WITH access paths `a.b[c].d…` (read: `accessString` with a loop invariant for its early
-      return; write: `identSet`), `:=` with an identifier / path / destructuring list on the left, plain or
-      under `let`; `let a`, `let [a, b]`;
+    * identifiers with access paths `a.b[c].d…` INCLUDING call links `f(x)`, `a.b(x)`, `a[i](x)`: user
+      functions (`runFunction` under `Inv`: frame, `this`/`super`, parameters with defaults, body) and the
+      builtins of the model `log error debug x.mark len type del add concat new raise range` (`lenB addB delB
+      concatB newB` with `addSuperClasses`, `goSyntax`, `prettyArg`); any other builtin name: `unsupported`;
+    * `:=` with an identifier / path / destructuring list on the left, plain or under `let`; `let a`, `let [a, b]`;
     * `statements`, `break continue return`; `if`/`elif`/`else`; condition loops and `for … in` loops over
       lists, maps, iterator functions and single values, one or several loop variables;
     * `try` with every clause shape (`except { }`, `except e { }`, `except as e { }`, typed `except "T", "U"
       [as e] { }`, `otherwise`, `finally`);
     * function declarations (named / anonymous, parameters with and without defaults).
-    Proved for every input besides: `runFunction` on ANY table entry with ANY arguments under `Inv`
-    (`user_function_run_never_panics`), `getValue setValue containerGet containerWalk listIndex` (the three
-    repaired negative-index sites), heap / scope primitives, `sprint`, `deepEq`, `bindLoopVars`, `errObject`,
-    the combinators `ifChain guardLoop iterLoop dispatchExcept tryCore tryFinally callCore withFreshIs`.
-    REMAINING: a `funccall` link inside an access path (`f(x)`, `a.b(x)`): `callFunction` / `runBuiltin`
-    (the Eval-side builtins `lenB addB delB concatB newB`, range, raise, type, log) are not connected yet —
-    in `Frag` a path has no call link (`Link` has no `call` constructor; the argument checks of the builtins
-    are covered by `builtin_total` on the Prims model); the bridge `WellFormed n → Frag n` (C07's predicate)
-    is not proved; sink / import / mutex are not in the model. -/
+    REMAINING: the bridge from the parser (`WellFormed n → Frag n`, C07's predicate) is not proved — instead
+    `fragB` decides membership and the driver reports the measured share of generated trees inside `Frag`
+    (evidence `frag_share`); `validate` is a `partial def` of the shared model (not provable; tested);
+    sink / import / mutex are not in the model (engine path: test families A, E, K, modes s/d/w). -/
 theorem eval_never_panics_partial (f sc : Nat) (n : Ecal.Parse.Node) (hn : Frag n) (s : St) (hs : Inv s) :
     ((eval f sc n).run.run s).1 ≠ .error Sig.panic ∧ Inv ((eval f sc n).run.run s).2 :=
   eval_frag_no_panic f sc n hn s hs
+
+/-- The decidable form the driver uses: `fragB` (run on the tree the REAL parser produced for every generated
+    case; `frag=1` in the driver output, share in the evidence) implies the hypothesis of
+    `eval_never_panics_partial`. -/
+theorem eval_never_panics_checked (k f sc : Nat) (n : Ecal.Parse.Node) (hb : Ecal.FragB.fragB k n = true) (s : St) (hs : Inv s) :
+    ((eval f sc n).run.run s).1 ≠ .error Sig.panic ∧ Inv ((eval f sc n).run.run s).2 :=
+  eval_frag_no_panic f sc n (fragB_sound k n hb) s hs
 
 /-- Running any entry of the function table with any arguments (any caller scope, heap, fuel) never yields
     `panic` and preserves `Inv`: function.Run builds the frame, binds `this`/`super`/parameters (defaults
